@@ -88,7 +88,8 @@ def render_frame_unit(ctx):
     kind, val = _catch(ctx, lambda: f(arg, level=level, predicate=pred, format="svg"))
     ctx.check("render-succeeds-on-this-plan", bool(kind == "ret"), info=repr(val)[:300])
     ctx.check("frame:the-caller's-graph-is-never-mutated(only-its-copy-is)", bool(not violations), info=f"mutating operations on the caller's graph: {violations}")
-    snap2 = (list(real_graph.nodes(data=True)), [(id(u), id(v), repr(k)) for u, v, k in real_graph.edges(keys=True)], [(id(n), n.scope) for n in real_graph.nodes()])
+    snap2 = (list(real_graph.nodes(data=True)), [(id(u), id(v), repr(k)) for u, v, k in real_graph.edges(keys=True)],
+             [(id(n), getattr(n, "scope", "<a node render added>")) for n in real_graph.nodes()])
     ctx.check("frame:nodes,edges,scopes-identical-afterwards", bool(snap == snap2))
     return "ok"
 
